@@ -522,6 +522,9 @@ func fixedTargets() []string {
 		// sibling fields served by one slab row: a map with transformed struct keys, then plain string-keyed maps
 		"(env (16 s s) (100 (mp (st 16) i) (mp s i) (mp s s))) (atlas 0 (e (st 16) - (tr 6 s)) (e (st 100) - (smap (fld 61 (0) (mp (st 16) i) 0 0) (fld 62 (1) (mp s i) 0 0) (fld 63 (2) (mp s s) 0 0)))) (st 100)",
 		"(env (16 s s)) (atlas 0 (e (st 16) - (tr 6 s))) (sl a)",
+		// kinds that cannot be serialized, below the top level: an error on the first token that reaches them
+		"(env) (atlas 0) (sl bad)",
+		"(env) (atlas 0) (mp s bad)",
 	}
 }
 
